@@ -23,7 +23,7 @@ theorem recordPlan_some {s : State} {a : String} {t : Nat} {r : Str} {amt : Opti
       p.nft = { chain := ch, contract := normalizeHex c, token := normalizeHex tok } ∧
       (createUtxr s.st t r amount d p.nft s.h p.rcpt).id = some p.id ∧ p.st = (createUtxr s.st t r amount d p.nft s.h p.rcpt).st := by
   simp only [recordPlan, bind, Option.bind_eq_some_iff, check_eq_some, Bool.and_eq_true, bne_iff_ne, ne_eq, beq_iff_eq, pure, Option.pure_def, Option.some.injEq] at h
-  obtain ⟨acc, hacc, amount, hamt, _, hb, _, hadm, tn, htn, _, ⟨hd, hp⟩, rc, hrc, id, hid, hpl⟩ := h
+  obtain ⟨acc, hacc, amount, hamt, _, ⟨hb, _⟩, _, hadm, tn, htn, _, ⟨hd, hp⟩, rc, hrc, id, hid, hpl⟩ := h
   subst hpl
   exact ⟨acc, amount, tn, hacc, hamt, hb, hadm, htn, hd, hp, hrc, rfl, hid, rfl⟩
 
